@@ -737,3 +737,80 @@ func comparedBefore(action ssa.Instruction, res, a, b ssa.Value) bool {
 	}
 	return false
 }
+
+// bigMutators are the *big.Int methods that write their receiver.
+var bigMutators = map[string]bool{"Add": true, "Sub": true, "Mul": true, "Div": true, "Quo": true, "Rem": true, "Mod": true, "Neg": true, "Abs": true, "Set": true,
+	"SetInt64": true, "SetUint64": true, "SetBytes": true, "SetString": true, "SetBit": true, "Exp": true, "Lsh": true, "Rsh": true, "And": true, "Or": true, "Xor": true, "Not": true, "Sqrt": true}
+
+// freshBig: v is a *big.Int nobody else holds: new(big.Int), big.NewInt(...), or the result of a big.Int method called on such a value
+// (the methods return their receiver).
+func freshBig(v ssa.Value, d int) bool {
+	if d > 8 {
+		return false
+	}
+	switch x := v.(type) {
+	case *ssa.Alloc:
+		return true
+	case *ssa.Call:
+		o := core.CalleeObj(x)
+		if o == nil || o.Pkg() == nil || o.Pkg().Path() != "math/big" {
+			return false
+		}
+		if o.Name() == "NewInt" {
+			return true
+		}
+		if sig, ok := o.Type().(*types.Signature); ok && sig.Recv() != nil && len(x.Call.Args) > 0 {
+			return freshBig(x.Call.Args[0], d+1)
+		}
+	case *ssa.Phi:
+		for _, e := range x.Edges {
+			if !freshBig(e, d+1) {
+				return false
+			}
+		}
+		return len(x.Edges) > 0
+	case *ssa.UnOp:
+		// a local cell that only ever holds fresh values
+		if al, ok := x.X.(*ssa.Alloc); ok && x.Op == token.MUL && al.Referrers() != nil {
+			n := 0
+			for _, r := range *al.Referrers() {
+				if st, ok := r.(*ssa.Store); ok && st.Addr == ssa.Value(al) {
+					n++
+					if !freshBig(st.Val, d+1) {
+						return false
+					}
+				}
+			}
+			return n > 0
+		}
+	}
+	return false
+}
+
+// sharedBigMutations lists the calls in fn of a mutating *big.Int method whose receiver is not fresh.
+func sharedBigMutations(fn *ssa.Function) []*ssa.Call {
+	var out []*ssa.Call
+	for _, b := range fn.Blocks {
+		for _, in := range b.Instrs {
+			call, ok := in.(*ssa.Call)
+			if !ok || len(call.Call.Args) == 0 {
+				continue
+			}
+			o := core.CalleeObj(call)
+			if o == nil || o.Pkg() == nil || o.Pkg().Path() != "math/big" || !bigMutators[o.Name()] {
+				continue
+			}
+			sig, ok := o.Type().(*types.Signature)
+			if !ok || sig.Recv() == nil {
+				continue
+			}
+			if rn := recvNamed(o); rn == nil || rn.Name() != "Int" {
+				continue
+			}
+			if !freshBig(call.Call.Args[0], 0) {
+				out = append(out, call)
+			}
+		}
+	}
+	return out
+}
